@@ -162,7 +162,7 @@ func (p *Prog) Graph(f *Func) *Graph {
 				en := newNode(KEdge, b, nil)
 				en.Truth = i == 0
 				if cond != nil {
-					en.Ast = inlineCond(f, cond)
+					en.Ast = normaliseCmp(f, inlineCond(f, cond))
 					if sw := p.swTag[cond]; sw != nil {
 						en.Tag = sw.Tag
 					}
@@ -708,4 +708,57 @@ func boolLocalDef(f *Func, id *ast.Ident) ast.Expr {
 		}
 	}
 	return nil
+}
+
+// normaliseCmp returns cond with every comparison whose left operand is a constant (or nil) and whose right operand is
+// not turned around (`9 > len(buf)` becomes `len(buf) < 9`, `nil != err` becomes `err != nil`), so that facts read off
+// an edge do not depend on which side the programmer put the constant. Anything else is returned unchanged (same nodes).
+func normaliseCmp(f *Func, cond ast.Expr) ast.Expr {
+	info := f.Pkg.TypesInfo
+	isConst := func(e ast.Expr) bool {
+		e = unparen(e)
+		if tv, ok := info.Types[e]; ok && (tv.Value != nil || tv.IsNil()) {
+			return true
+		}
+		if id, ok := e.(*ast.Ident); ok && id.Name == "nil" {
+			return true
+		}
+		return false
+	}
+	var rec func(e ast.Expr) ast.Expr
+	rec = func(e ast.Expr) ast.Expr {
+		switch x := e.(type) {
+		case *ast.ParenExpr:
+			in := rec(x.X)
+			if in == x.X {
+				return e
+			}
+			return &ast.ParenExpr{Lparen: x.Lparen, X: in, Rparen: x.Rparen}
+		case *ast.UnaryExpr:
+			if x.Op != token.NOT {
+				return e
+			}
+			in := rec(x.X)
+			if in == x.X {
+				return e
+			}
+			return &ast.UnaryExpr{OpPos: x.OpPos, Op: x.Op, X: in}
+		case *ast.BinaryExpr:
+			switch x.Op {
+			case token.LAND, token.LOR:
+				l, r := rec(x.X), rec(x.Y)
+				if l == x.X && r == x.Y {
+					return e
+				}
+				return &ast.BinaryExpr{X: l, OpPos: x.OpPos, Op: x.Op, Y: r}
+			case token.LSS, token.GTR, token.LEQ, token.GEQ, token.EQL, token.NEQ:
+				if isConst(x.X) && !isConst(x.Y) {
+					op := map[token.Token]token.Token{token.LSS: token.GTR, token.GTR: token.LSS, token.LEQ: token.GEQ, token.GEQ: token.LEQ, token.EQL: token.EQL, token.NEQ: token.NEQ}[x.Op]
+					return &ast.BinaryExpr{X: x.Y, OpPos: x.OpPos, Op: op, Y: x.X}
+				}
+			}
+		}
+		return e
+	}
+	return rec(cond)
 }
